@@ -59,7 +59,7 @@ def rule_real_base(ctx):
             raise AnalysisError('base %d arm of %s: exponent rewritten before the mantissa is scaled' % (base, f.short))
         bad = None
         try:
-            for e0 in range(-50, 51):
+            for e0 in range(-ctx.scale(50, 5000), ctx.scale(50, 5000) + 1):
                 env = {evar: e0}
                 for s in signs:
                     env[s] = -1 if e0 < 0 else 1
@@ -73,7 +73,7 @@ def rule_real_base(ctx):
         ctx.ob('W.realbase', f, 'base %d: 2**e == 2**shift * %d**e\' for every exponent' % (base, base), bad is None,
                'for e = %d the mantissa is multiplied by 2**%d and the exponent becomes %d**%d: the encoded value is off by a '
                'factor of 2**%d' % (bad[0], bad[1], bad[2], bad[3], bad[0] - bad[1] - bits * bad[3]) if bad else
-               'checked for e in -50..50', node=scale[0])
+               'checked for e in -%d..%d' % (ctx.scale(50, 5000), ctx.scale(50, 5000)), node=scale[0])
 
 
 # ------------------------------------------------------------------- W.realexp
@@ -397,7 +397,7 @@ def rule_as_binary(ctx):
     cnt = _subst(cnt, table)
     bad = None
     try:
-        for L in range(0, 8):
+        for L in range(0, ctx.scale(8, 13)):
             if L == 0 and skip_empty:
                 continue
             for v in range(0, 2 ** L):
@@ -416,7 +416,7 @@ def rule_as_binary(ctx):
     ctx.ob('W.binstr', f, 'padding + digits == bit length for every value', bad is None,
            'a %d-bit string with value %d is written with %d padding zero(s) + %d digit(s) (digits: `%s`): its text form, and '
            'with it the native form, reads back as a string of another length' % (bad + (dtxt,)) if bad else
-           'checked for lengths 0..7 (digits: `%s`, padding: `%s`)' % (dtxt, norm(pad.right)), node=rets[0])
+           'checked for lengths 0..%d (digits: `%s`, padding: `%s`)' % (ctx.scale(8, 13) - 1, dtxt, norm(pad.right)), node=rets[0])
     ctx.ob('W.binstr', f, 'text form is zeros followed by the digits of the value', True, norm(rets[0].value), nontrivial=False)
 
 
